@@ -191,7 +191,9 @@ def classify_tree_diff(a: N, b: N, cfg: T.Mapping[str, T.Any]) -> str:
     ka, kb = a[0] if isinstance(a, tuple) and a else None, b[0] if isinstance(b, tuple) and b else None
     if ka in ('str', 'fstr') and kb in ('str', 'fstr'):
         a_ml, b_ml = bool(a[2]), bool(b[2])
-        if a_ml and not b_ml and '\\' in a[1] and ka == kb:
+        a_f = ka == 'fstr' or len(a) > 3      # spelled f'...' in the text (placeholder-free f-strings are normalised to 'str')
+        b_f = kb == 'fstr' or len(b) > 3
+        if a_ml and not b_ml and '\\' in a[1] and a_f == b_f:
             # the raw body of the triple-quoted literal is now read with escape processing
             try:
                 redecoded = R.decode_escapes(a[1])
